@@ -77,7 +77,71 @@ def handleCaseGen (args : List String) : Option String :=
     pure (hexOfBytes (String.ofList (script sh bin root)).toUTF8.toList)
   (d.run args).map (·.1)
 
+def decFOpt : Dec FishGen.FOpt := do
+  let shorts ← listOf strB
+  let longs ← listOf strB
+  let help ← optStrB
+  let t ← tok
+  let pvt ← tok
+  let pvs ← if pvt == "~" then pure none else do
+    let n ← ofOpt pvt.toNat?
+    let l ← many (do let nm ← strB; let h ← strB; let hid ← tok; pure (nm, h, hid == "1")) n
+    pure (some l)
+  let ht ← tok
+  let hint ← ofOpt (match ht with
+    | "0" => some FishGen.Hint.unknown | "1" => some .path | "2" => some .dir | "3" => some .command
+    | "4" => some .user | "5" => some .host | "6" => some .other | _ => none)
+  let short1 ← optStrB
+  let long1 ← optStrB
+  pure { shorts, longs, help, takes := t == "1", pvs, hint, short1, long1 }
+
+def decFNode : Nat → Dec FishGen.FNode
+  | 0 => failure
+  | fuel+1 => do
+    let names ← listOf strB
+    let about ← optStrB
+    let opts ← listOf decFOpt
+    let hp ← tok
+    let subs ← listOf (decFNode fuel)
+    pure (.mk names about opts (hp == "1") subs)
+
+/-- `fishgen <bin> TREE` → hex of the whole fish script -/
+def handleFishGen (args : List String) : Option String :=
+  let d : Dec String := do
+    let bin ← strB
+    let root ← decFNode 8
+    pure (hexOfBytes (String.ofList (FishGen.script bin root)).toUTF8.toList)
+  (d.run args).map (·.1)
+
+def decNArg : Dec NuGen.NArg := do
+  let id ← strB
+  let flags ← tok      -- positional, append, required, takes, pathHint
+  let b := fun (i : Nat) => (flags.toList.getD i '0') == '1'
+  let shorts ← listOf strB
+  let longs ← listOf strB
+  let pvs ← listOf strB
+  let help ← optStrB
+  pure { id, positional := b 0, append := b 1, required := b 2, takes := b 3, pathHint := b 4, shorts, longs, pvs, help }
+
+def decNNode : Nat → Dec NuGen.NNode
+  | 0 => failure
+  | fuel+1 => do
+    let bin ← strB
+    let about ← optStrB
+    let args ← listOf decNArg
+    let subs ← listOf (decNNode fuel)
+    pure (.mk bin about args subs)
+
+/-- `nugen TREE` → hex of the whole nushell script -/
+def handleNuGen (args : List String) : Option String :=
+  let d : Dec String := do
+    let root ← decNNode 8
+    pure (hexOfBytes (String.ofList (NuGen.script root)).toUTF8.toList)
+  (d.run args).map (·.1)
+
 def handleL7 (cmd : String) (args : List String) : Option String :=
+  if cmd == "nugen" then some ((handleNuGen args).getD "bad-op") else
+  if cmd == "fishgen" then some ((handleFishGen args).getD "bad-op") else
   if cmd == "casegen" then some ((handleCaseGen args).getD "bad-op") else
   if cmd == "bashc" then some ((handleBashc args).getD "bad-op")
   else if cmd == "bashcases" then some ((handleBashCases args).getD "bad-op")
